@@ -104,7 +104,7 @@ pub fn gen_case(t: &mut Tape, excl: &[usize]) -> Case {
                     p.vt = VT::I32;
                 }
             }
-            Method { name: names[i].clone(), tag: format!("M{i}"), is_async: any_async && t.chance(2, 3), params, has_gen: false, uses_u: false, typed_receiver: false, ret_unit: t.chance(1, 5) }
+            Method { name: names[i].clone(), tag: format!("M{i}"), is_async: any_async && t.chance(2, 3), params, has_gen: false, uses_u: false, typed_receiver: false, ret_unit: t.chance(1, 5), where_form: false }
         };
         methods.push(m);
     }
